@@ -1,6 +1,6 @@
-\* every sequence of 5 operations (at most 3 requests)
+\* every sequence of 6 operations (at most 3 requests)
 CONSTANTS
-  Depth = 5
+  Depth = 6
   MaxReq = 3
   RModes = {"try", "guard", "fg", "wait", "disc"}
 SPECIFICATION RSpec
